@@ -383,3 +383,34 @@ from .common import lazy  # noqa: E402
 RULES += [lazy("C14", "r6_payload_not_shared", "placeholders appended for one node must not leak into the payload of another"),
           lazy("C12", "r2_writer", "an input reference is written in the form node2task reads (bare name = default output only)"),
           lazy("C12", "r1_deserialise", "reader side of the same reference forms")]
+RULES.append(lazy("C19", "r1_with_values", "values bound through the builder reach the callable at the positions / names given, also when bound in two steps"))
+
+
+def r10_resolve_callable(ctx):
+    """C10.R10 / C01: a callable named by its dotted path (task entrypoints, custom serde functions) is looked up as attribute <last
+    component> of module <everything before the last dot>; a name without a dot is a builtin.  Decided on three representative names
+    with importlib.import_module modelled (the string operations are computed exactly)."""
+    repo = ctx.repo
+    fi = repo.func("cascade.low.func.resolve_callable")
+    ctx.analysed(fi.qual)
+    for name, want_mod, want_attr in (("json.dumps", "json", "dumps"), ("os.path.basename", "os.path", "basename"),
+                                      ("cascade.benchmarks.generators.ser_numpy", "cascade.benchmarks.generators", "ser_numpy")):
+        seen = {}
+
+        def imp(run, a, k, n, f):
+            seen["mod"] = a[0] if a else None
+            d_ = {"path": Atom("wrong-1"), name.split(".", 1)[1]: Atom("wrong-2")}
+            d_[want_attr] = Atom("THE-CALLABLE")
+            return Obj("module", {"__dict__": d_}, name="MOD")
+        ps = Interp(repo, call_models={"importlib.import_module": imp}).explore(fi, args={"s": name})
+        ctx.evals(len(ps))
+        good = len(ps) == 1 and ps[0].exit[0] == "return" and getattr(ps[0].exit[1], "name", None) == "THE-CALLABLE" and seen.get("mod") == want_mod
+        if not good:
+            ctx.violation("C10.R10", fi.qual, loc(fi), "dotted name -> (module, attribute)",
+                          f"resolve_callable({name!r}) imports {seen.get('mod')!r} and ends {[(p.exit[0], vkey(p.exit[1])[:50]) for p in ps]}; expected module {want_mod!r}, "
+                          f"attribute {want_attr!r} — a task whose entrypoint (or serde function) lives in a sub-module fails instead of computing its node")
+        else:
+            ctx.ok("C10.R10", loc(fi), f"resolve_callable({name!r}) -> import {want_mod!r}, attribute {want_attr!r}")
+
+
+RULES.append(r10_resolve_callable)
